@@ -85,6 +85,11 @@ def ensure_facts(repo=None, verbose=True):
                     # never evict the latest sets of /repo, nor a set another process may still be reading (touched in the last 15 minutes)
                     if d not in keep_main and time.time() - _mt(d) > 900:
                         shutil.rmtree(d, ignore_errors=True)
+                # hard bound (a parallel self-test creates one set per patched scratch copy, each ~100 MB): beyond 40 sets the oldest go,
+                # whatever their age, as long as they were not touched in the last 3 minutes
+                for d in olds[:-40]:
+                    if d not in keep_main and time.time() - _mt(d) > 180:
+                        shutil.rmtree(d, ignore_errors=True)
             os.makedirs(fdir, exist_ok=True)
             tgt = os.environ.get('PVX_TARGET', os.path.join(CACHE, 'target'))
             r = subprocess.run([os.path.join(VERIF, 'bin', 'extract.sh'), repo, fdir, tgt],
